@@ -289,47 +289,76 @@ def c137(ctx):
     SIB = r'^std::path::Path::(with_extension|with_file_name|with_added_extension)$|^std::path::PathBuf::(set_extension|set_file_name|pop|add_extension)$'
     PEQ = r'^<std::path::(PathBuf|Path) as core::cmp::PartialEq(<.*>)?>::(eq|ne)$'
     res_rx = '|'.join('^' + re.escape(r_) + '$' for r_ in RESOLVERS)
+    THR7 = (r'::deref$', r'::as_ref$', r'::as_path$', r'::borrow$')
+
+    def judged_at(f, site, operand, depth=0):
+        """[(fn, site, resolver sites)] where the operand is (derived from) a resolver result; follows a path parameter of a helper to its callers."""
+        rs = [c for c in f.calls(res_rx) if c.dest is not None]
+        rl = reads_locals(f, operand) | {(op_place(operand) or {}).get('l')}
+        srcs = [c for c in rs if c.dest['l'] in rl]
+        if srcs:
+            return [(f, site, srcs)]
+        root = f.root_local(operand, through_calls=THR7)
+        out = []
+        if root == 1 and '{closure' in f.path and depth < 4:
+            # a captured path: upvar i of the closure is operand i of the closure aggregate in the enclosing function
+            o_ = f.origin(operand, through_calls=THR7)
+            idx = [pp.get('f') for pp in (o_[2] if o_[0] == 'local' else []) if isinstance(pp, dict) and 'f' in pp][:1]
+            parent = P.fns.get(f.path.rsplit('::{closure', 1)[0])
+            if idx and parent is not None:
+                for bi_ in parent.reachable():
+                    for st_ in parent.blocks[bi_]['s']:
+                        rv_ = st_.get('rv') or {}
+                        if rv_.get('k') == 'agg' and rv_.get('def') == f.path and len(rv_['a']) > idx[0]:
+                            class _At:      # where the closure is built stands for where it runs (it is handed to a combinator on the spot)
+                                pass
+                            at = _At(); at.bb = bi_; at.line = st_.get('ln', 0); at.name = site.name
+                            out += judged_at(parent, at, rv_['a'][idx[0]], depth + 1)
+            return out
+        if root is not None and 1 <= root <= f.argc and '{closure' not in f.path and depth < 4:
+            for c in P.callers('^' + re.escape(f.path) + '$'):
+                if re.search(SCOPE, c.fn.path) and len(c.args) >= root:
+                    out += judged_at(c.fn, c, c.args[root - 1], depth + 1)
+        return out
+
     n = 0
-    for p_, f in sorted(P.fns.items()):
+    seen7 = set()
+    for p_, f0 in sorted(P.fns.items()):
         if not re.search(SCOPE, p_):
             continue
-        rs = [c for c in f.calls(res_rx) if c.dest is not None]
-        if not rs:
-            continue
-        for s_ in f.calls(SIB):
-            if not s_.args:
+        for s0 in f0.calls(SIB):
+            if not s0.args:
                 continue
-            rl = reads_locals(f, s_.args[0]) | {(op_place(s_.args[0]) or {}).get('l')}
-            srcs = [c for c in rs if c.dest['l'] in rl]
-            if not srcs:
-                continue
-            n += 1
-            ok, why = False, ''
-            for c in srcs:
-                # (a) the resolver excludes the root itself
-                rb = P.fns.get(c.callee)
-                if rb is not None and rb.calls(PEQ):
-                    ok, why = True, 'behind %s, which compares its result with the root' % c.name
-                    break
-                # (b) compared with the root on the way here
-                for q in f.calls(PEQ):
-                    if not f.dom(q.bb, s_.bb) or q.dest is None:
-                        continue
-                    if not any(c.dest['l'] in (reads_locals(f, a) | {(op_place(a) or {}).get('l')}) for a in q.args):
-                        continue
-                    sw = f.switch_on_call(q)
-                    tgts = []
-                    for (bi, on, ts, els) in switches(f):
-                        if f.dom(q.bb, bi) and f.dom(bi, s_.bb) and (q.dest['l'] in reads_locals(f, on) or q.dest['l'] == (op_place(on) or {}).get('l')):
-                            tgts = list(ts.values()) + ([els] if els is not None else [])
-                            if any(not f.can_reach(t, s_.bb) for t in tgts):
-                                ok, why = True, 'reachable only past a comparison of the resolved path with the root (the equal edge leaves)'
-                if ok:
-                    break
-            ctx.ob('C13.7', f, 'sibling-of-resolved-path:' + s_.name, ok,
-                   ('%s on a resolver result — %s' % (s_.name, why)) if ok else
-                   '%s on the result of %s with no comparison against the root before it: for the path `.` (or ``) the derived name is an entry of the root\'s PARENT directory' % (s_.name, srcs[0].name),
-                   line=s_.line)
+            for (f, s_, srcs) in judged_at(f0, s0, s0.args[0]):
+                if (f.path, s_.bb, s0.name) in seen7:
+                    continue
+                seen7.add((f.path, s_.bb, s0.name))
+                n += 1
+                ok, why = False, ''
+                for c in srcs:
+                    # (a) the resolver excludes the root itself
+                    rb = P.fns.get(c.callee)
+                    if rb is not None and rb.calls(PEQ):
+                        ok, why = True, 'behind %s, which compares its result with the root' % c.name
+                        break
+                    # (b) compared with the root on the way here
+                    for q in f.calls(PEQ):
+                        if not f.dom(q.bb, s_.bb) or q.dest is None:
+                            continue
+                        if not any(c.dest['l'] in (reads_locals(f, a) | {(op_place(a) or {}).get('l')}) for a in q.args):
+                            continue
+                        for (bi, on, ts, els) in switches(f):
+                            if f.dom(q.bb, bi) and f.dom(bi, s_.bb) and (q.dest['l'] in reads_locals(f, on) or q.dest['l'] == (op_place(on) or {}).get('l')):
+                                tgts = list(ts.values()) + ([els] if els is not None else [])
+                                if any(not f.can_reach(t, s_.bb) for t in tgts):
+                                    ok, why = True, 'reachable only past a comparison of the resolved path with the root (the equal edge leaves)'
+                    if ok:
+                        break
+                via = '' if f is f0 else ' (in %s, reached from here)' % f0.path.rsplit('::', 1)[-1]
+                ctx.ob('C13.7', f, 'sibling-of-resolved-path:' + s0.name, ok,
+                       ('%s on a resolver result%s — %s' % (s0.name, via, why)) if ok else
+                       '%s%s on the result of %s with no comparison against the root before it: for the path `.` (or ``) the derived name is an entry of the root\'s PARENT directory' % (s0.name, via, srcs[0].name),
+                       line=s_.line)
     ctx.floor('C13.7', 'sibling names derived from a resolver result', n, 1)
 
 
